@@ -1018,6 +1018,10 @@ func (e *Env) call(v *ast.CallExpr, want *Sort) T {
 			return litTerm(n, target)
 		}
 		t := e.compile(v.Args[0], nil)
+		if (name == "int" || name == "int64") && t.So.K == KBV && t.So.W == 64 {
+			// Go's conversion of a uint64 wraps into the signed range
+			return T{S: convertTerm(t.S, t.So, SInt), So: SMath}
+		}
 		return T{S: convertTerm(t.S, t.So, target), So: target}
 	case "step_old", "step_new":
 		key := exprString(v.Args[0])
